@@ -125,6 +125,7 @@ class Ref:
         self.framers = {}
         self.order = []          # scheduled framers in fronts+mids+backs order
         self.log = []            # current tick events
+        self.acc_counts = {}     # framer name -> number of `acc` calls (the per-framer list's length)
         self.razed = []
         self._build()
 
@@ -189,7 +190,7 @@ class Ref:
                 F = R.frames[fr["name"]]
                 for it in fr["items"]:
                     k = it[0]
-                    if k == "rec":
+                    if k in ("rec", "acc"):
                         self._ctxlist(F, it[1]).append(it)
                     elif k == "go":
                         F.preacts.append(("go", it[1], list(it[2])))
@@ -344,6 +345,10 @@ class Ref:
     def act(self, F, ctx, a):
         """Execute one act; returns its (truthiness-relevant) return value."""
         k = a[0]
+        if k == "acc":
+            n = self.acc_counts[F.framer.name] = self.acc_counts.get(F.framer.name, 0) + 1
+            self.log.append((F.framer.name, F.name, ctx, "acc:%d" % n))
+            return None
         if k == "rec":
             self.log.append((F.framer.name, F.name, ctx, a[2]))
             return True if ctx == "benter" else None
@@ -456,7 +461,7 @@ class Ref:
             F = R.frames[fr["name"]]
             for it in fr["items"]:
                 k = it[0]
-                if k == "rec":
+                if k in ("rec", "acc"):
                     self._ctxlist(F, it[1]).append(it)
                 elif k == "go":
                     F.preacts.append(("go", it[1], list(it[2])))
